@@ -3183,3 +3183,5 @@ def check(run, prog):
     rule_scope_scans(run, prog)              # R-5.11
     from .c05_zero_match import rule_zero_matches
     rule_zero_matches(run, prog)             # R-5.12
+    from .c05_ordering import rule_ordering_types
+    rule_ordering_types(run, prog)           # R-5.13
